@@ -105,13 +105,13 @@ PROPS = {
         "vo": ["Properties/C02.vo"],
         "rule": "random rule sets of 1..7 rules built with the Rule builder: saliences incl. ties, negatives and i32 extremes, enable flags, no-loop, lock-on-active, 3 agenda groups, 2 activation groups, "
                 "date-effective/expires around the evaluation timestamps, 1..2 integer comparisons per condition, 0..2 actions (assign, add, ActivateAgendaGroup); histories of 1..8 engine calls "
-                "(execute_at_time at timestamps 0..9, set/pop/clear focus, reset_no_loop_tracking, enable/disable) with max_cycles 1,2,3,10; observed per execute: cycle count, fired count, the firing "
+                "(execute_at_time at timestamps 0..9, set/pop/clear focus, engine.activate_agenda_group, reset_no_loop_tracking, enable/disable) with max_cycles 1,2,3,10; observed per execute: cycle count, fired count, the firing "
                 "sequence (each rule appends its id to a trace fact), final fields, focused group; non-trivial = at least one firing",
         "level_text": "Proved for every condition language and action semantics: the rule vector is kept in descending salience with insertion order among equals; the firings of a pass are a subsequence of it; "
                 "every firing passed every gate at the moment it was considered (enabled, focused group, date window, lock-on-active, activation group, no-loop) with a true condition; a no-loop rule fires at most once "
                 "per pass and never while recorded; at most one rule of an activation group fires per pass; a lock-on-active rule is blocked after firing until its own group is activated again. The monitor is equality "
                 "of the implementation's observations with this proved model on a concrete instance (integer comparisons; assign/add/ActivateAgendaGroup actions).",
-        "level_note": "Trusted: Coq kernel; model of execute_at_time/AgendaManager/ActivationGroupManager/workflow queue/KB order after fix b4b5b52; the concrete instance EngineConc; harness; extraction. "
+        "level_note": "Trusted: Coq kernel; model of execute_at_time/AgendaManager/ActivationGroupManager/workflow queue/KB order after fixes b4b5b52 and 1106f91; the concrete instance EngineConc; harness; extraction. "
                 "no_loop across several execute calls is covered per pass (theorems) and per history (correspondence). Axioms: none.",
         "trusted_base": [],
         "assumptions": ["wall-clock timeout disabled; custom functions/handlers total (outside the typed core)"],
